@@ -34,7 +34,7 @@ for p in "${props[@]}"; do
   t0=$(date +%s)
   o=$(VERIF_OUT_DIR=/tmp/verif-seedout VERIF_REPO=$wt /verif/check $p 2>&1); rc=$?
   t1=$(date +%s)
-  sigs=$(echo "$o" | grep -o 'sig=[^ ]*' | sort | uniq -c | sort -rn | head -6 | tr '\n' ';')
+  sigs=$(echo "$o" | grep '^  sig=' | grep -o 'sig=[^ ]*' | sort | uniq -c | sort -rn | head -6 | tr '\n' ';')
   echo "check $p rc=$rc $((t1-t0))s sigs: $sigs" | tee -a $res
 done
 git apply -R $sd/patch.diff
